@@ -107,24 +107,26 @@ func (g *pgen) stmt() {
 	g.depth++
 	defer func() { g.depth-- }()
 	w := []int{
-		8, // 0 log
-		5, // 1 loop
-		9, // 2 try
-		4, // 3 getter / setter / coercion
-		4, // 4 sort comparator
-		6, // 5 array & other builtin callbacks
-		7, // 6 for-of over generator
-		6, // 7 for-of / destructuring over instrumented iterator
-		5, // 8 manual generator drive
-		6, // 9 promise job
-		4, // 10 async function
-		4, // 11 nested RunProgram
-		4, // 12 Go->JS callable
-		3, // 13 recursion / closure
-		3, // 14 class
-		2, // 15 with / eval / switch / label
-		2, // 16 yield inside generator
-		2, // 17 abrupt: break / continue / return
+		8,  // 0 log
+		5,  // 1 loop
+		9,  // 2 try
+		4,  // 3 getter / setter / coercion
+		4,  // 4 sort comparator
+		6,  // 5 array & other builtin callbacks
+		7,  // 6 for-of over generator
+		6,  // 7 for-of / destructuring over instrumented iterator
+		5,  // 8 manual generator drive
+		6,  // 9 promise job
+		4,  // 10 async function
+		4,  // 11 nested RunProgram
+		4,  // 12 Go->JS callable
+		3,  // 13 recursion / closure
+		3,  // 14 class
+		2,  // 15 with / eval / switch / label
+		2,  // 16 yield inside generator
+		2,  // 17 abrupt: break / continue / return
+		1,  // 18 long loop (thousands of instructions: exercises the bound B on instructions after Interrupt)
+		11, // 19 built-in-invoked user code (hooks.go): thenables, ToPrimitive, iteration, JSON, Proxy, Reflect, RegExp protocol, species
 	}
 	if g.depth >= 4 {
 		w = []int{1}
@@ -184,6 +186,8 @@ func (g *pgen) stmt() {
 		} else {
 			g.logS()
 		}
+	case 19:
+		g.hook()
 	case 18:
 		if g.depth > 1 || g.inLoop > 0 || g.inFunc > 0 {
 			g.logS()
@@ -591,6 +595,9 @@ func (g *pgen) nested() {
 }
 
 func (g *pgen) class() {
+	st := g.strict
+	g.strict = true // class bodies are strict code ('with' would be a SyntaxError)
+	defer func() { g.strict = st }()
 	c := g.id()
 	g.emit("var C%d = class {", c)
 	g.emit("#p = (log('s:%d'), 1);", g.id())
